@@ -299,8 +299,31 @@ def run_model(cf: CheckFn, values, coq_sample=60, seed=0, tag=None):
 
 ALLOWED_AXIOMS = {
     # standard-library axioms accepted when named in DESIGN.md section 10
+    # (entries ending in "." are module prefixes: the primitive floats/integers and their specification)
     "FloatAxioms.", "Float64.", "PrimFloat.", "Uint63.", "PrimInt63.", "Sint63.",
+    # EXACT names (no trailing dot: matched by equality, not by prefix): the standard library's axioms
+    # of the real numbers, on which Flocq (IEEE-754 formats, rounding) rests -- DESIGN.md section 13.6.
+    # Accepted only in the theorem files of the properties listed in AXIOM_SCOPE.
+    "ClassicalDedekindReals.sig_forall_dec",       # Coq.Reals: limited principle of omniscience on nat -> Prop
+    "ClassicalDedekindReals.sig_not_dec",          # Coq.Reals: decidability of negated propositions in Set
+    "Classical_Prop.classic",                      # excluded middle (Coq.Logic.Classical_Prop, via Coq.Reals)
+    "FunctionalExtensionality.functional_extensionality_dep",   # via Coq.Reals.ClassicalDedekindReals
 }
+AXIOM_SCOPE = {
+    # exact-name axiom -> the properties whose Props file may depend on it
+    "ClassicalDedekindReals.sig_forall_dec": ("C08",),
+    "ClassicalDedekindReals.sig_not_dec": ("C08",),
+    "Classical_Prop.classic": ("C08",),
+    "FunctionalExtensionality.functional_extensionality_dep": ("C08",),
+}
+
+def axiom_allowed(name: str, pid: str) -> bool:
+    for p in ALLOWED_AXIOMS:
+        if p.endswith("."):
+            if name.startswith(p): return True
+        elif name == p and pid in AXIOM_SCOPE.get(p, ()):
+            return True
+    return False
 
 def audit_props(pid: str):
     """Compile theories/Props/<pid>.v afresh, parse its Print Assumptions output.
@@ -320,9 +343,11 @@ def audit_props(pid: str):
     axioms = []
     for m in re.finditer(r"Axioms:\n((?:.+\n?)+?)(?:\n\n|\Z|(?=Closed under))", out):
         for line in m.group(1).splitlines():
-            mm = re.match(r"^([A-Za-z0-9_.']+)\s*:", line)
+            # an axiom starts at column 0; its type follows on the same line or, when long, on
+            # indented continuation lines ("name\n  : type")
+            mm = re.match(r"^([A-Za-z0-9_.']+)\s*(?::|$)", line)
             if mm and mm.group(1) != "Axioms": axioms.append(mm.group(1))   # header of the next block (consecutive non-closed theorems)
-    bad = [a for a in axioms if not any(a.startswith(p) for p in ALLOWED_AXIOMS)]
+    bad = [a for a in axioms if not axiom_allowed(a, pid)]
     forbidden = re.findall(r"\b(Admitted|admit|Axiom|Parameter|Conjecture|Unset Guard|bypass_check)\b", text)
     ok = (rc == 0) and not bad and not forbidden and (closed + (1 if axioms else 0) >= 1) and n_print >= 1
     return dict(ok=ok, rc=rc, log=out[-3000:], theorems=theorems, axioms=axioms, bad_axioms=bad,
